@@ -436,6 +436,92 @@ func genC16(do func(string, M)) {
 		}
 		do("bech32.polymod", M{"values": vInts(v)})
 	}
+	// code words by the shape of their checksum: leading / trailing zero digits ('q') and all-ones digits ('l'), one to three
+	// of them, and every digit value at the first and the last checksum position - an implementation that converts the
+	// checksum through a number or a string may treat such digits specially.  Every substitution of weight 1 and every
+	// pair inside the checksum must be rejected.
+	type csShape struct {
+		name string
+		ok   func(cs []byte) bool
+	}
+	var shapes []csShape
+	for k := 1; k <= 3; k++ {
+		k := k
+		for _, v := range []byte{0, 31} {
+			v := v
+			shapes = append(shapes, csShape{fmt.Sprintf("lead%d_%d", k, v), func(cs []byte) bool {
+				for i := 0; i < k; i++ {
+					if cs[i] != v {
+						return false
+					}
+				}
+				return cs[k] != v
+			}}, csShape{fmt.Sprintf("trail%d_%d", k, v), func(cs []byte) bool {
+				for i := 0; i < k; i++ {
+					if cs[5-i] != v {
+						return false
+					}
+				}
+				return cs[5-k] != v
+			}})
+		}
+	}
+	for v := byte(1); v < 31; v += 5 {
+		v := v
+		shapes = append(shapes, csShape{fmt.Sprintf("first_%d", v), func(cs []byte) bool { return cs[0] == v }},
+			csShape{fmt.Sprintf("last_%d", v), func(cs []byte) bool { return cs[5] == v }})
+	}
+	for si, sh := range shapes {
+		hrp := []string{"a", "iota", "smr", "tb", "verif"}[si%5]
+		data := make([]byte, 1+si%7)
+		var s string
+		found := false
+		for tries := 0; tries < 200000 && !found; tries++ {
+			r.Read(data)
+			var err error
+			if s, err = Encode(hrp, data); err != nil {
+				break
+			}
+			cs := make([]byte, 6)
+			for i := 0; i < 6; i++ {
+				cs[i] = byte(strings.IndexByte(csAlphabet, s[len(s)-6+i]))
+			}
+			found = sh.ok(cs)
+		}
+		if !found {
+			continue
+		}
+		if si%4 == 3 {
+			s = upperASCII(s)
+		}
+		dec(s)
+		b := []byte(s)
+		alt := func(c byte, a int) byte {
+			d := csAlphabet[a]
+			if c >= 'A' && c <= 'Z' && d >= 'a' && d <= 'z' {
+				d -= 32
+			}
+			return d
+		}
+		for i := len(b) - 6; i < len(b); i++ {
+			for a := 0; a < 32; a++ {
+				if c := alt(b[i], a); c != b[i] {
+					m := append([]byte{}, b...)
+					m[i] = c
+					dec(string(m))
+				}
+			}
+			for j := i + 1; j < len(b); j++ {
+				for q := 0; q < 3; q++ {
+					m := append([]byte{}, b...)
+					m[i], m[j] = alt(b[i], (strings.IndexByte(csAlphabet, b[i]|32)+1+q*7)%32), otherCharsetChar(r, m[j])
+					if m[i] != b[i] {
+						dec(string(m))
+					}
+				}
+			}
+		}
+	}
 	for k := 0; k < n; k++ {
 		hl := 1 + r.Intn(8)
 		if k%5 == 0 {
